@@ -31,7 +31,7 @@ ASSUMPTIONS = [
     "a crash is 'the process stops between two Python-level file operations or inside a write after a prefix reached the "
     "file'; reordering by the OS page cache / missing fsync is outside what the code attempts and what the injector can produce",
 ]
-BUDGET = {"quick": {"examples": 1600}, "thorough": {"examples": 40000, "deadline_s": 1500}}
+BUDGET = {"quick": {"examples": 1600}, "thorough": {"examples": 200000, "deadline_s": 900}}
 
 CFG = gen.cfg(max_syms=8, string_tier="U")
 SENTINEL_NS = 1_000_000_000 * 1_600_000_000  # 2020-09-13
